@@ -12,6 +12,7 @@ import fcntl
 import hashlib
 import json
 import os
+import random
 import re
 import shutil
 import subprocess
@@ -164,7 +165,7 @@ CORE_CLASSES = {
     "C02": ["ready", "fds", "mix", "timers"],
     "C05": ["timers", "mix"],
     "C06": ["reuse", "timers", "mix", "faults"],
-    "C07": ["disable", "mix", "timers"],
+    "C07": ["disable", "mix", "timers", "post"],
     "C08": ["mix", "idle", "reuse", "post"],
     "C09": ["post", "mix", "faults"],
     "C13": ["idle", "mix"],
@@ -287,9 +288,13 @@ def engine_core(prop, tier, seed, work):
 MODEL_CFGS = {
     "C03": ["reuse"], "C04": ["chan"], "C10": [], "C12": ["timers"],
     "C01": ["reuse", "edge"], "C02": ["edge", "post"], "C05": ["timers"], "C06": ["reuse", "post"],
-    "C07": ["edge", "timers"], "C08": ["drop", "idle"], "C09": ["post"], "C13": ["idle"],
+    "C07": ["edge", "timers"], "C08": ["drop", "idle"], "C09": ["post", "life"], "C13": ["idle"],
     "C14": ["life", "synth"], "C15": ["faults", "life"], "C16": ["edge", "reuse"],
 }
+
+
+# small configurations of which ALL behaviours are replayed on the real crate
+MODEL_ENUMS = {"C09": ["life"], "C14": ["life"]}
 
 
 def engine_model(prop, tier, seed, work):
@@ -331,13 +336,19 @@ def engine_sim(prop, tier, seed, work):
     import model_scn
     res = Result()
     n = 30 if tier == "quick" else 600
-    for name in MODEL_CFGS[prop]:
-        cfg = "mc/sim_%s.cfg" % name
+    todo = [("sim", x) for x in MODEL_CFGS[prop]] + [("enum", x) for x in MODEL_ENUMS.get(prop, [])]
+    for mode, name in todo:
+        cfg = "mc/%s_%s.cfg" % (mode, name)
         meta = os.path.join(work, "simmeta_" + name)
-        cmd = ["tlc", "-workers", "4", "-simulate", "num=%d" % n, "-depth", "250", "-seed", str(seed), "-metadir", meta,
-               "-cleanup", "-noGenerateSpecTE", "-config", cfg, "MCLoopCore.tla"]
+        if mode == "sim":
+            cmd = ["tlc", "-workers", "4", "-simulate", "num=%d" % n, "-depth", "250", "-seed", str(seed), "-metadir", meta,
+                   "-cleanup", "-noGenerateSpecTE", "-config", cfg, "MCLoopCore.tla"]
+        else:
+            # breadth-first with the history in the state: TLC prints EVERY complete behaviour of the small configuration
+            cmd = ["tlc", "-workers", "8", "-metadir", meta, "-cleanup", "-noGenerateSpecTE", "-config", cfg, "MCLoopCore.tla"]
+            name = "enum_" + name
         try:
-            p = sh(cmd, cwd=SPEC, env=tlc_env(), timeout=600, check=False)
+            p = sh(cmd, cwd=SPEC, env=tlc_env(), timeout=900, check=False)
         finally:
             shutil.rmtree(meta, ignore_errors=True)
         if "Error:" in p.stdout and "is violated" in p.stdout:
@@ -358,11 +369,19 @@ def engine_sim(prop, tier, seed, work):
             preds[sid] = hist
         if not scns:
             raise ToolError("no behaviour extracted from TLC simulation of %s:\n%s" % (cfg, p.stdout[-2000:]))
+        total = len(scns)
+        cap = 500 if tier == "quick" else 6000
+        if mode == "enum" and total > cap:
+            keep = set(random.Random(seed).sample(range(total), cap))
+            scns = [x for i, x in enumerate(scns) if i in keep]
+            preds = {x["id"]: preds[x["id"]] for x in scns}
+        if mode == "enum":
+            res.notes.append("enumeration %s: %d complete behaviours of the model, %d replayed on the real crate" % (cfg, total, len(scns)))
         m = re.search(r"The number of states generated: (\d+)", p.stdout)
         if m:
             res.transitions += int(m.group(1))
             res.states += int(m.group(1))
-        res.cmds.append("tlc -simulate num=%d -config %s MCLoopCore.tla | model_scn -> drive_core -> LoopTrace" % (n, cfg))
+        res.cmds.append("tlc %s -config %s MCLoopCore.tla | model_scn -> drive_core -> LoopTrace" % ("-simulate num=%d" % n if mode == "sim" else "(BFS, all behaviours)", cfg))
         r = run_core(prop, scns, work, "sim_" + name)
         res.merge(r)
         # conformance: predicted events vs. recorded events
@@ -730,6 +749,7 @@ for _p in CONC_KINDS:
 # engines that live in their own module tools/engine_<name>.py (loaded lazily: they import this module)
 ENGINE_MODULES = {
     "C12": ["engine_timeout"],
+    "C16": ["engine_asyncio:engine_c16"],
     "C17": ["engine_asyncio"],
     "C18": ["engine_transient"],
     "C19": ["engine_signals"],
@@ -741,8 +761,11 @@ def engines_for(prop):
     import importlib
     out = list(ENGINES.get(prop, []))
     for name in ENGINE_MODULES.get(prop, []):
+        fn = "engine"
+        if ":" in name:
+            name, fn = name.split(":")
         if os.path.exists("%s/tools/%s.py" % (ROOT, name)):
-            out.append(importlib.import_module(name).engine)
+            out.append(getattr(importlib.import_module(name), fn))
     return out
 
 
